@@ -34,7 +34,10 @@ pub struct RwLock<T: ?Sized> {
     cnt: AtomicUsize,
 
     // the reader mutex that track the reader count
+    #[cfg(not(may_verif))]
     rlock: Mutex<usize>,
+    #[cfg(may_verif)]
+    rlock: Mutex<crate::verif::Counted>,
 
     poison: poison::Flag,
     data: UnsafeCell<T>,
@@ -65,7 +68,10 @@ impl<T> RwLock<T> {
         RwLock {
             to_wake: SegQueue::new(),
             cnt: AtomicUsize::new(0),
+            #[cfg(not(may_verif))]
             rlock: Mutex::new(0),
+            #[cfg(may_verif)]
+            rlock: Mutex::new(crate::verif::Counted::new(0)),
             poison: poison::Flag::new(),
             data: UnsafeCell::new(t),
         }
